@@ -67,7 +67,7 @@ def run(ctx, replay=None):
         for g in GROUPS:
             jobs = []
             for name in g:
-                k = per * (3 if name == "WassersteinVectorizer" else 1)
+                k = per * (4 if name == "WassersteinVectorizer" else 1)
                 jobs += [[name, ctx.rng.randrange(10 ** 6)] for _ in range(k)]
             batches.append(jobs)
         if not ctx.quick:                      # split the long batches so that 16 children run
